@@ -160,11 +160,12 @@ def main() -> int:
         r = recs[i]
         e = r["entries"][k - 1] if 0 < k <= len(r["entries"]) else None
         lines = r["text"].split("\n")
-        # shape fact for the findings file (not a verdict): the entry lies in a block that was printed empty - `... {` or `default:` / `case ..:` directly followed by `}`
-        empty_block = bool(e and 0 < e["line"] < len(lines) and lines[e["line"]].strip().startswith("}") and lines[e["line"] - 1].rstrip().endswith(("{", ":"))
-                           and e["col"] > len(lines[e["line"]]) - len(lines[e["line"]].lstrip(" ")))
+        # shape fact for the findings file (not a verdict): the entry lies on the line of a closing brace, behind its indentation - where the
+        # next statement of the block would have been written (end of a block, or a block that was printed empty)
+        at_closing_brace = bool(e and 0 < e["line"] < len(lines) and lines[e["line"]].strip().startswith("}")
+                                and e["col"] > len(lines[e["line"]]) - len(lines[e["line"]].lstrip(" ")))
         rep.violation("decompile-map:" + kind, {"which": r["which"], "input": fmt(r["inp"]), "text": r["text"][:2500], "entry": e, "origin": r["origin"],
-                                                "empty_block": empty_block,
+                                                "at_closing_brace": at_closing_brace,
                                                 "tags": shapes.tags(r["inp"]),
                                                 "op": next((o["op"] for rt in r["inp"] for o in rt if e and o["off"] == e["off"]), None)})
     good = [r for r in recs if r["entries"] and r["matches"] and len(r["entries"]) >= 3][:4]
